@@ -843,6 +843,194 @@ def inline_body(bd, at_block, callee):
     blk["term"] = {"k": "goto", "t": [bm(0)], "line": line, "mexp": False, "mac": "", "inlined": callee["path"]}
 
 
+BASELINE_FILE = _os.path.join(_os.path.dirname(_os.path.abspath(__file__)), "baseline.json")
+
+
+def _load_baseline():
+    try:
+        with open(BASELINE_FILE, encoding="utf-8") as fh:
+            return json.load(fh)
+    except (OSError, ValueError):
+        return None
+
+
+def _walk_places(bodies):
+    for b in bodies:
+        for bl in b["blocks"]:
+            for st in bl["st"]:
+                yield st["lhs"]
+                rv = st["rv"]
+                if "pl" in rv:
+                    yield rv["pl"]
+                for o in rv.get("o", []):
+                    for k in ("copy", "move"):
+                        if k in o:
+                            yield o[k]
+            t = bl["term"]
+            for o in list(t.get("args", [])) + ([t["d"]] if "d" in t else []) + ([t["c"]] if "c" in t else []):
+                for k in ("copy", "move"):
+                    if isinstance(o, dict) and k in o:
+                        yield o[k]
+            for k in ("dest", "pl"):
+                if isinstance(t.get(k), dict):
+                    yield t[k]
+
+
+_IDCH = set("abcdefghijklmnopqrstuvwxyzABCDEFGHIJKLMNOPQRSTUVWXYZ0123456789_")
+
+
+def _rename_in_string(s, subs):
+    """subs: [(parent path without generics, new last segment, old last segment)]: every `<parent>[::<..>]::new` (also `<X as parent>::new`) in a
+    def-path-like string gets its last segment back"""
+    for parent, n_last, o_last in subs:
+        key = "::" + n_last
+        if key not in s:
+            continue
+        out, i = [], 0
+        while True:
+            j = s.find(key, i)
+            if j < 0:
+                out.append(s[i:])
+                break
+            e = j + len(key)
+            hit = False
+            if e == len(s) or s[e] not in _IDCH:
+                pre = s[:j]
+                if pre.endswith(">"):
+                    depth, k = 0, len(pre) - 1
+                    while k >= 0:
+                        if pre[k] == ">" and (k == 0 or pre[k - 1] != "-"):
+                            depth += 1
+                        elif pre[k] == "<":
+                            depth -= 1
+                            if depth == 0:
+                                break
+                        k -= 1
+                    if k >= 2 and pre[k - 2:k] == "::":
+                        pre = pre[:k - 2]           # parent::<args>::name
+                    else:
+                        pre = pre[:-1]              # <X as parent>::name
+                        if pre.endswith(">"):       # <X as parent<args>>::name
+                            depth, k = 0, len(pre) - 1
+                            while k >= 0:
+                                if pre[k] == ">" and (k == 0 or pre[k - 1] != "-"):
+                                    depth += 1
+                                elif pre[k] == "<":
+                                    depth -= 1
+                                    if depth == 0:
+                                        break
+                                k -= 1
+                            if k > 0:
+                                pre = pre[:k]
+                if pre.endswith(parent) and (len(pre) == len(parent) or pre[len(pre) - len(parent) - 1] not in _IDCH):
+                    hit = True
+            out.append(s[i:j])
+            out.append("::" + (o_last if hit else n_last))
+            i = e
+        s = "".join(out)
+    return s
+
+
+def _deep_strings(o, f):
+    if isinstance(o, dict):
+        for k, v in o.items():
+            if isinstance(v, str):
+                if "::" in v:
+                    o[k] = f(v)
+            elif isinstance(v, (dict, list)):
+                _deep_strings(v, f)
+    elif isinstance(o, list):
+        for k, v in enumerate(o):
+            if isinstance(v, str):
+                if "::" in v:
+                    o[k] = f(v)
+            elif isinstance(v, (dict, list)):
+                _deep_strings(v, f)
+
+
+def alias_renames(d, base, log=None):
+    """Behaviour-preserving renames are undone before the rules run: a private struct field whose name is not in the baseline but whose position
+    held a baseline name that is gone gets that name back; a private function that is new while exactly one baseline function with the same file,
+    arity, impl and visibility class is missing is given the missing function's name (in its body path and at every call site)."""
+    n = 0
+    # ---- fields of single-variant ADTs
+    fmap = {}
+    for a in d.get("adts", []):
+        bl = base["adts"].get(a["path"])
+        if not bl or len(a["variants"]) != 1 or len(bl) != 1:
+            continue
+        cur = [f["name"] for f in a["variants"][0]["fields"]]
+        old = bl[0]
+        for i, nm in enumerate(cur):
+            if nm not in old and i < len(old) and old[i] not in cur:
+                fmap[(a["path"], nm)] = old[i]
+                a["variants"][0]["fields"][i]["name"] = old[i]
+    if fmap:
+        for pl in _walk_places(d["bodies"]):
+            for x in pl["p"]:
+                if isinstance(x, dict) and "n" in x and (x.get("a"), x["n"]) in fmap:
+                    x["n"] = fmap[(x["a"], x["n"])]
+                    n += 1
+        if log is not None:
+            log.append(("#field-renames", {"%s.%s" % k: v for k, v in fmap.items()}))
+    # ---- private functions (free functions, inherent methods, methods of private traits)
+    present = {}
+    for b in d["bodies"]:
+        if b["kind"] in ("Fn", "AssocFn"):
+            present.setdefault(norm_path(b["path"]), []).append(b)
+
+    def sig(info):
+        return (info["file"], info["argc"], info.get("selfhead", ""), info.get("trait", ""), info["kind"])
+    missing = {np_: info for np_, info in base["fns"].items() if np_ not in present and info.get("vis") != "Public"}
+    new = {np_: bs for np_, bs in present.items() if np_ not in base["fns"] and all(b_.get("vis") != "Public" for b_ in bs)}
+    ren = {}
+    for np_, bs in new.items():
+        b0 = bs[0]
+        s_ = (b0["file"], b0["argc"], b0.get("impl_selfhead", ""), b0.get("impl_trait", ""), b0["kind"])
+        cands = [m for m, info in missing.items() if sig(info) == s_]
+        if len(cands) == 1:
+            ren.setdefault(cands[0], []).append(np_)
+    ren = {old: news[0] for old, news in ren.items() if len(news) == 1}
+    subs = []
+    for old, newp in ren.items():
+        o_last, n_last = last_seg(old), last_seg(newp)
+        tr = present[newp][0].get("impl_trait", "")
+        parent = tr if tr else newp[:len(newp) - len(n_last) - 2]
+        if o_last != n_last and parent:
+            subs.append((parent, n_last, o_last))
+    if subs:
+        _deep_strings(d["bodies"], lambda s_: _rename_in_string(s_, subs))
+        n += len(subs)
+        if log is not None:
+            log.append(("#fn-renames", {v: k for k, v in ren.items()}))
+    # ---- named locals (parameters and let bindings) of functions that exist in the baseline
+    import difflib
+    lren = {}
+    for b in d["bodies"]:
+        old = base.get("locals", {}).get(norm_path(b["path"]))
+        if old is None:
+            continue
+        cur = [(i, l["name"], l["head"]) for i, l in enumerate(b["locals"]) if l["name"]]
+        a_ = [(o[0], o[1]) for o in old]
+        c_ = [(x[1], x[2]) for x in cur]
+        if a_ == c_:
+            continue
+        onames, cnames = {o[0] for o in old}, {x[1] for x in cur}
+        sm = difflib.SequenceMatcher(None, a_, c_, autojunk=False)
+        for tag, i1, i2, j1, j2 in sm.get_opcodes():
+            if tag != "replace" or i2 - i1 != j2 - j1:
+                continue
+            for k in range(i2 - i1):
+                (on, oh), (cn, ch) = a_[i1 + k], c_[j1 + k]
+                if oh == ch and on not in cnames and cn not in onames:
+                    b["locals"][cur[j1 + k][0]]["name"] = on
+                    lren["%s:%s" % (norm_path(b["path"]), cn)] = on
+                    n += 1
+    if lren and log is not None:
+        log.append(("#local-renames", lren))
+    return n
+
+
 def _decision_chain(bd, cont):
     """[cont] or [cont, next]: the continuation consists of plain copies followed by a switch, or of plain copies + a call to Try::branch whose
     target block is (copies +) a switch.  None if the continuation does anything else (then nothing is duplicated)."""
@@ -941,6 +1129,9 @@ class Facts:
             d = json.load(fh)
         self.source = path
         self.inlined = []
+        base = _load_baseline()
+        if base is not None and not _os.environ.get("PGSA_NO_ALIAS"):    # measurement switch only: without the normalisation more alarms, never fewer
+            alias_renames(d, base, self.inlined)
         known = _load_known()
         if known is not None:
             inline_new_helpers(d["bodies"], known, self.inlined)
